@@ -46,6 +46,10 @@ Inductive val :=
 Inductive binop := Add | Sub | Mul | Div | FloorDiv | Mod.
 Inductive cmpop := CLt | CLe | CGt | CGe | CEq | CNe.
 
+(** comprehensions: [e for x in it] (a list), all(e for x in it), any(e for x in it);
+    all / any stop at the first deciding element, as the generator forms do *)
+Inductive comp_kind := CList | CAll | CAny.
+
 Inductive expr :=
 | EVar (x : string)
 | EConst (v : val)
@@ -60,6 +64,7 @@ Inductive expr :=
 | ECall (f : string) (args : list expr)      (* f(args); methods and attributes are calls of "meth:m" / "attr:a" on the object *)
 | ETuple (l : list expr)                     (* (a, b, ...) *)
 | EList (l : list expr)                      (* [a, b, ...] *)
+| EComp (k : comp_kind) (x : string) (it : expr) (body : expr)
 | EIndex (a : expr) (i : Z)                  (* a[i], i >= 0 a literal *)
 | EIdx (a : expr) (i : expr)                 (* a[i], i computed (negative: from the end) *)
 | ESliceTo (a : expr) (k : Z)                (* a[:k]  (k = -1: all but the last; k >= 0: first k) *)
@@ -143,6 +148,8 @@ Fixpoint bc_r (op : binop) (a : val) (b : val) : option val :=
   end.
 Definition binop_val (op : binop) (a b : val) : option val :=
   match a, b with
+  | VL l, VZ n => match op with Mul => Some (VL (List.concat (repeat l (Z.to_nat n)))) | _ => None end   (* [x] * n *)
+  | VT l, VZ n => match op with Mul => Some (VT (List.concat (repeat l (Z.to_nat n)))) | _ => None end
   | VA l, VA r => None
   | VA l, _ => bc_l op b a
   | _, VA r => bc_r op a b
@@ -207,6 +214,31 @@ Definition truthy (v : val) : option bool :=
   | VL l => Some (match l with [] => false | _ :: _ => true end)
   | VT l => Some (match l with [] => false | _ :: _ => true end)
   | VA _ => None
+  end.
+
+Fixpoint comp_loop (k : comp_kind) (f : val -> option (option val)) (vs : list val) : option (option val) :=
+  match vs with
+  | [] => Some (Some (match k with CList => VL [] | CAll => VB true | CAny => VB false end))
+  | v :: t =>
+      match f v with
+      | Some (Some b) =>
+          match k with
+          | CList => match comp_loop k f t with
+                     | Some (Some (VL r)) => Some (Some (VL (b :: r)))
+                     | Some (Some _) => None
+                     | o => o end
+          | CAll => match truthy b with
+                    | Some true => comp_loop k f t
+                    | Some false => Some (Some (VB false))
+                    | None => None end
+          | CAny => match truthy b with
+                    | Some false => comp_loop k f t
+                    | Some true => Some (Some (VB true))
+                    | None => None end
+          end
+      | Some None => Some None
+      | None => None
+      end
   end.
 
 Definition unQ (l : list val) : option (list Q) := map_opt toQ l.
@@ -553,6 +585,16 @@ Fixpoint eval (env : list (string * val)) (e : expr) {struct e} : option (option
                            | None => None end
                end) l with
       | Some (Some vs) => ret (VL vs)
+      | Some None => Some None
+      | None => None
+      end
+  | EComp k x it body =>
+      match eval env it with
+      | Some (Some v) =>
+          match seq_of v with
+          | Some vs => comp_loop k (fun v => eval ((x, v) :: env) body) vs
+          | None => None
+          end
       | Some None => Some None
       | None => None
       end
